@@ -16,7 +16,7 @@ import tempfile
 import time
 import traceback
 
-from . import report
+from . import reference, report
 from .model import AnalysisError, Repo
 from .props import META, REGISTRY
 
@@ -29,7 +29,7 @@ def load_prop(prop):
   return specs, META.get(prop, {})
 
 
-def run_rules(prop, root, tier, only_rule=None, repo=None):
+def run_rules(prop, root, tier, only_rule=None, repo=None, use_reference=True):
   """Run all rules of `prop` on the tree at `root`. Returns (ctx, errors)."""
   specs, _ = load_prop(prop)
   repo = repo or Repo(root)
@@ -39,6 +39,7 @@ def run_rules(prop, root, tier, only_rule=None, repo=None):
     if only_rule and spec.id != only_rule:
       continue
     R = ctx.rule(spec.id, spec.kind, spec.floor, spec.title)
+    repo.trace = set()
     try:
       spec.fn(R, repo)
       if R.found < spec.floor:
@@ -54,6 +55,11 @@ def run_rules(prop, root, tier, only_rule=None, repo=None):
       R.error = '%s: %s' % (type(e).__name__, e)
       tb = traceback.format_exc().strip().splitlines()
       errors.append('%s: internal error %s: %s [%s]' % (spec.id, type(e).__name__, e, ' | '.join(x.strip() for x in tb[-7:])))
+    R.consulted = repo.trace
+    repo.trace = None
+    if (R.findings or R.error) and use_reference:
+      if reference.reuse(R, repo):
+        errors[:] = [e for e in errors if not e.startswith(spec.id + ':')]
   return ctx, errors
 
 
